@@ -536,7 +536,7 @@ def _merge_lists(base, local_diff, remote_diff, path, parent_decisions, strategi
                 decisions.onesided(path, a0, a1)
 
             # Then deal with patches and/or removals
-            if p0 == p1:
+            if strict_equal(p0, p1):
                 decisions.agreement(path, p0, p1)
             elif pchunktype == "P/P":
                 # Otherwise recurse and pass on unresolved conflicts
